@@ -456,6 +456,16 @@ func (s *IndexedState) rem(ctx *Context, id string) (bool, error) {
 			return false, nil
 		}
 
+		// Storage first (as in LinearState): if that fails, we
+		// still know the fact, and a retry gets here again.
+		// Forgetting the fact first would make the retry skip
+		// the storage, and the fact would be back after the
+		// next reload.
+		_, err = s.Store.Remove(ctx, s.Name, []byte(id))
+		if err != nil {
+			return true, err
+		}
+
 		if rule != nil {
 			if err := s.unindexRule(ctx, id, rule); err != nil {
 				return false, err
@@ -465,11 +475,6 @@ func (s *IndexedState) rem(ctx *Context, id string) (bool, error) {
 		delete(s.IdToFact, id)
 
 		s.FactIndex.RemIdTerms(ctx, ExtractTerms(ctx, fact), id)
-
-		_, err = s.Store.Remove(ctx, s.Name, []byte(id))
-		if err != nil {
-			return true, err
-		}
 	} else {
 		Log(DEBUG, ctx, "IndexedState.rem", "state", s.Name, "id", id, "warning", "not found")
 	}
